@@ -288,3 +288,11 @@ define_hasher!(Blake384, u64, 128, U128, 384, U48, Compressor512, BLAKE384_IV);
 
 #[rustfmt::skip]
 define_hasher!(Blake512, u64, 128, U128, 512, U64, Compressor512, BLAKE512_IV);
+
+/// Verification hook (off unless built with `--cfg cryptocorrosion_verif`): makes crate-private items
+/// and state reachable from the external contract harnesses in $CRYPTOCORROSION_VERIF_DIR. Add-only.
+#[cfg(cryptocorrosion_verif)]
+#[doc(hidden)]
+pub mod verif_incrate {
+    include!(concat!(env!("CRYPTOCORROSION_VERIF_DIR"), "/incrate/blake_hash.rs"));
+}
